@@ -1,6 +1,7 @@
 package rules
 
 import (
+	"go/token"
 	"fmt"
 	"sort"
 	"strings"
@@ -133,7 +134,18 @@ func sameLocation(ff *core.FuncFacts, a, b ssa.Value) bool {
 	if ok1 && ok2 {
 		return ff.Fwd(ia.Index) == ff.Fwd(ib.Index) && sameLocation(ff, ia.X, ib.X)
 	}
-	return ff.Fwd(a) == ff.Fwd(b)
+	if ff.Fwd(a) == ff.Fwd(b) {
+		return true
+	}
+	// two loads of the same slice header / pointer field (x.items[i] evaluated twice)
+	ua, ok1 := a.(*ssa.UnOp)
+	ub, ok2 := b.(*ssa.UnOp)
+	if ok1 && ok2 && ua.Op == token.MUL && ub.Op == token.MUL {
+		_, isFA := ua.X.(*ssa.FieldAddr)
+		_, isIA := ua.X.(*ssa.IndexAddr)
+		return (isFA || isIA) && sameLocation(ff, ua.X, ub.X)
+	}
+	return false
 }
 
 // ExtractDeltas finds every tracked delta of fn.
@@ -188,6 +200,24 @@ func ExtractDeltas(P *core.Program, spec *LedgerSpec, fn *ssa.Function) []Delta 
 					if matched {
 						continue
 					}
+				}
+				// general read-modify-write: the stored value is linear in the old value of
+				// the same location with coefficient one (amount.Add(old), old.Add(x.Neg()),
+				// old.Sub(a).Add(b), Coin.AddAmount …): the delta is the rest
+				ff.LeafKey = func(v ssa.Value) (string, bool) {
+					if ld, ok := v.(*ssa.UnOp); ok && ld.Op == token.MUL && sameLocation(ff, ld.X, fa) {
+						return "@OLD", true
+					}
+					return "", false
+				}
+				whole := ff.LinOf(x.Val)
+				ff.LeafKey = nil
+				if whole["@OLD"] == 1 {
+					d.Sign = 1
+					d.Amt = whole.Plus(core.Lin{"@OLD": 1}, -1)
+					d.Desc = fl.Ledger + " read-modify-write"
+					out = append(out, d)
+					continue
 				}
 				d.Sign = 0
 				d.Amt = ff.LinOf(x.Val)
@@ -616,6 +646,19 @@ func persisted(P *core.Program, ff *core.FuncFacts, d Delta) bool {
 			for _, o := range ff.Origins(a) {
 				if roots[o.Val] {
 					return true
+				}
+			}
+			// a by-value copy of the updated record taken after the update (a helper's value
+			// parameter in the inlined normal form): `c := *base; persist(&c)`
+			if al, ok := a.(*ssa.Alloc); ok && al.Referrers() != nil {
+				for _, r := range *al.Referrers() {
+					st, ok := r.(*ssa.Store)
+					if !ok || st.Addr != ssa.Value(al) || !core.Dominates(d.Instr, st) {
+						continue
+					}
+					if u, ok := st.Val.(*ssa.UnOp); ok && u.X == d.Base {
+						return true
+					}
 				}
 			}
 		}
